@@ -104,3 +104,65 @@ func clipIDs(ids []uint64) string {
 	}
 	return fmt.Sprint(ids)
 }
+
+// c19ChanObs (scenario chan): ONE goroutine drives both ends of a buffered channel transport with a random
+// sequence of Writes and Reads, a third of them on a context that is already done, and logs how each
+// call ended. The sequence is decided by the Lean model of the transport (op `chanobs`,
+// Transport.chanObs: a failed call has no effect, a Read returns the head of the queue): accepted with
+// the number of envelopes still in flight that the harness counted itself.
+func c19ChanObs(r *Run) {
+	rng := r.Rand("c19.chanobs")
+	dead, kill := context.WithCancel(context.Background())
+	kill()
+	for round, rounds := 0, r.Scale(60, 3000); round < rounds; round++ {
+		const capQ = 6
+		ab := make(chan *Rpc, capQ)
+		wr := goat.NewGoatOverChannel(make(chan *Rpc), ab)
+		rd := goat.NewGoatOverChannel(ab, make(chan *Rpc))
+		var evs []string
+		inflight, next := 0, uint64(1)
+		for k, n := 0, 4+rng.Intn(40); k < n; k++ {
+			ctx := context.Background()
+			done := rng.Intn(3) == 0
+			if done {
+				ctx = dead
+			}
+			if rng.Intn(2) == 0 {
+				if !done && inflight == capQ {
+					continue // would block
+				}
+				id := next
+				next++
+				if err := wr.Write(ctx, &Rpc{Id: id}); err == nil {
+					evs = append(evs, fmt.Sprintf("w%d", id))
+					inflight++
+				} else {
+					evs = append(evs, fmt.Sprintf("W%d", id))
+				}
+			} else {
+				if !done && inflight == 0 {
+					continue // would block
+				}
+				if e, err := rd.Read(ctx); err == nil {
+					evs = append(evs, fmt.Sprintf("r%d", e.Id))
+					inflight--
+				} else {
+					evs = append(evs, "R")
+				}
+			}
+		}
+		in := "_"
+		if len(evs) > 0 {
+			in = ""
+			for i, e := range evs {
+				if i > 0 {
+					in += " "
+				}
+				in += e
+			}
+		}
+		r.Case("chanobs", in, fmt.Sprintf("accept:inflight=%d", inflight))
+		r.Count("chan.obs.sequences")
+		r.CountN("chan.obs.events", len(evs))
+	}
+}
